@@ -15,9 +15,9 @@ ID = "C12"
 TITLE = "URL and Windows-path parts index into, and decode from, their parent's value"
 
 SCHEMES = [b"http", b"HTTP", b"hTtp", b"https", b"ftp"]
-USERINFO = [b"", b"u@", b"u:p@", b":p@", b"u:@", b"u:p:q@", b"%41b@", b"u%40x:p%3A@"]
+USERINFO = [b"", b"u@", b"u:p@", b":p@", b"u:@", b"u:p:q@", b"%41b@", b"u%40x:p%3A@", b"a@b@", b"u:p@q@", b"@@"]
 HOSTS = [b"example.com", b"ex%61mple.com", b"8.8.4.4", b"0x7f.1", b"2130706433", b"%31.1.1.1", b"[::1]", b"[0:0:0:0:0:0:0:1]", b"%5B::1%5D",
-         b"a-b.example.org", b"010.1.1.1", b"EXAMPLE.COM", b"[::1%47]", b"[fe80::1%25eth0]", b"[::1%2541]", b"[::ffff:1.2.3.4]"]
+         b"a-b.example.org", b"010.1.1.1", b"EXAMPLE.COM", b"[::ffff:1.2.3.4]"]
 PORTS = [b"", b":", b":80"]
 SEGS = [b"a", b".", b"..", b"%2e", b"%2E%2e", b"%2F", b"%41", b"", b"b%3Fc"]
 QUERIES = [b"", b"?", b"?q=%41", b"?a/b?c%2Fd"]
